@@ -631,6 +631,15 @@ class WalletWorld:
         n_acc0 = len(self.chain.accepted_broadcasts)
         ok, _ = self.call(wi, 'bumpfee', lambda: t.bumpfee(broadcast=bc, **kw))
         if not ok:
+            # an interrupted / failed fee bump may already have removed the replaced transaction from the wallet
+            ok2, t_old = self.observe(lambda: self.H(wi).transaction(txid))
+            if ok2 and t_old is None:
+                for op_, (tx_, _) in list(wi.acked_spent.items()):
+                    if tx_ == txid:
+                        del wi.acked_spent[op_]
+                wi.sent.pop(txid, None)
+                wi.seen_txids.discard(txid)
+                self.w.probe('bumpfee_interrupted_after_delete')
             return
         self.w.outcome('bumped', old_fee=old_fee, new_fee=t.fee, txid=t.txid[:16], pushed=bool(t.pushed))
         self.on_bumped(wi, h, t, old_fee, txid)
